@@ -44,6 +44,9 @@ type dev struct {
 	Err          string `json:"err"`
 	ConnNil      bool   `json:"connNil"`
 	WatcherAlive bool   `json:"watcherAlive"`
+	// Dl (netdial events): which deadline the context handed to NetDial carries - "timeout" (start +
+	// Dialer.Timeout), "ctx" (the caller's own deadline), "none", or "other"
+	Dl string `json:"dl"`
 }
 
 type timeoutErr struct{}
@@ -298,7 +301,20 @@ func runDial(sc dscenario) []interface{} {
 	case "longer":
 		d.Timeout = dLong
 	}
+	start := time.Now()
+	ctxDl, ctxHasDl := ctx.Deadline()
 	d.NetDial = func(dctx context.Context, network, addr string) (net.Conn, error) {
+		dlClass := "none"
+		if dl, ok := dctx.Deadline(); ok {
+			switch {
+			case d.Timeout != 0 && !dl.After(time.Now().Add(d.Timeout)) && !dl.Before(start.Add(d.Timeout)):
+				dlClass = "timeout"
+			case ctxHasDl && dl.Equal(ctxDl):
+				dlClass = "ctx"
+			default:
+				dlClass = "other"
+			}
+		}
 		e.mu.Lock()
 		if sc.CancelAt == "in_dial" {
 			e.doCancel()
@@ -307,18 +323,18 @@ func runDial(sc dscenario) []interface{} {
 		switch sc.DialMode {
 		case "fail":
 			e.mu.Lock()
-			e.log(dev{Ev: "netdial", Res: "fail"})
+			e.log(dev{Ev: "netdial", Res: "fail", Dl: dlClass})
 			e.mu.Unlock()
 			return nil, errDialFail
 		case "hang":
 			<-dctx.Done()
 			e.mu.Lock()
-			e.log(dev{Ev: "netdial", Res: "abort"})
+			e.log(dev{Ev: "netdial", Res: "abort", Dl: dlClass})
 			e.mu.Unlock()
 			return nil, dctx.Err()
 		}
 		e.mu.Lock()
-		e.log(dev{Ev: "netdial", Res: "ok"})
+		e.log(dev{Ev: "netdial", Res: "ok", Dl: dlClass})
 		e.mu.Unlock()
 		return gconn{e}, nil
 	}
